@@ -269,7 +269,14 @@ func (k Keeper) UpdateDispute(
 			result = types.VoteResult_NO_QUORUM_MAJORITY_INVALID
 		}
 	default:
-		return errors.New("no majority")
+		// no option has a strict majority (a tie between the leading options, or no votes at all):
+		// the dispute is decided as invalid instead of failing, so that every vote distribution has a result
+		// and the begin-block tally can never stop block processing
+		if quorum {
+			result = types.VoteResult_INVALID
+		} else {
+			result = types.VoteResult_NO_QUORUM_MAJORITY_INVALID
+		}
 	}
 	vote.VoteResult = result
 	vote.VoteEnd = sdk.UnwrapSDKContext(ctx).BlockTime()
